@@ -65,35 +65,29 @@ def followBranch : List String := ["while trace_table[i,j] != 0:", "trace[pos, 0
 /-- bits examined in MATCH / GAP_LEFT / GAP_TOP state -/
 def followStateMasks : List (List String) := [["MATCH_TO_MATCH", "GAP_LEFT_TO_MATCH", "GAP_TOP_TO_MATCH"], ["MATCH_TO_GAP_LEFT", "GAP_LEFT_TO_GAP_LEFT"], ["MATCH_TO_GAP_TOP", "GAP_TOP_TO_GAP_TOP"]]
 /-- `if` tests of align.score in ast order -/
-def scoreIfs : List String := ["isinstance(gap_penalty, numbers.Real)", "isinstance(gap_penalty, Sequence)", "terminal_penalty", "seq_code[i] == -1", "code_i != -1 and code_j != -1", "in_gap"]
+def scoreIfs : List String := ["get_codes(alignment)[:, L0][L1] != -1 and get_codes(alignment)[:, L0][L2] != -1", "isinstance(gap_penalty, numbers.Real)", "isinstance(gap_penalty, Sequence)", "terminal_penalty", "L3[L4] == -1", "v3"]
 /-- `score += …` statements -/
-def scoreAugAssign : List (String × String × String) := [("score", "Add", "matrix[code_i, code_j]"), ("score", "Add", "gap_ext"), ("score", "Add", "gap_open")]
+def scoreAugAssign : List (String × String × String) := [("v0", "Add", "matrix.score_matrix()[get_codes(alignment)[:, L0][L1], get_codes(alignment)[:, L0][L2]]"), ("v0", "Add", "v2"), ("v0", "Add", "v1")]
 /-- gap_open / gap_ext / in_gap / slice assignments -/
-def scoreAssign : List String := ["gap_open = gap_penalty", "gap_ext = gap_penalty", "in_gap = False", "gap_open = gap_penalty[0]", "gap_ext = gap_penalty[1]", "start_index = 0", "stop_index = len(seq_code)", "in_gap = True", "in_gap = False", "start_index, stop_index = find_terminal_gaps(alignment)"]
+def scoreAssign : List String := ["v0 = 0", "v1 = gap_penalty", "v2 = gap_penalty", "v1 = gap_penalty[0]", "v2 = gap_penalty[1]", "v3 = False", "v4 = 0", "v5 = len(L3)", "v4, v5 = find_terminal_gaps(alignment)", "v3 = True", "v3 = False", "L0 in range(get_codes(alignment).shape[1])", "L1 in range(get_codes(alignment).shape[0])", "L2 in range(L1 + 1, get_codes(alignment).shape[0])", "L3 in get_codes(alignment)", "L4 in range(v4, v5)"]
 /-- exception classes raised by align.score -/
 def scoreRaises : List String := ["TypeError"]
 /-- `return` of find_terminal_gaps -/
-def ftgReturn : List String := ["(np.max(firsts).item(), np.min(lasts).item() + 1)"]
+def ftgReturn : List String := ["(np.max([L2[0] if len(L2) > 0 else alignment.trace.shape[0] for L2 in [np.where(alignment.trace[:, L0] != -1)[0] for L0 in range(alignment.trace.shape[1])]]).item(), np.min([L3[-1] if len(L3) > 0 else -1 for L3 in [np.where(alignment.trace[:, L1] != -1)[0] for L1 in range(alignment.trace.shape[1])]]).item() + 1)"]
 /-- assignments of find_terminal_gaps -/
-def ftgAssign : List String := ["trace = alignment.trace", "no_gap_pos = [np.where(trace[:, i] != -1)[0] for i in range(trace.shape[1])]", "firsts = [pos[0] if len(pos) > 0 else trace.shape[0] for pos in no_gap_pos]", "lasts = [pos[-1] if len(pos) > 0 else -1 for pos in no_gap_pos]"]
+def ftgAssign : List String := []
 /-- assignments of get_codes -/
-def getCodesAssign : List String := ["trace = alignment.trace", "sequences = alignment.sequences", "codes = np.zeros((trace.shape[1], trace.shape[0]), dtype=np.int64)", "no_gap = trace[:, i] != -1", "codes[i] = np.int64(-1)", "codes[i, no_gap] = sequences[i].code[trace[no_gap, i]]"]
+def getCodesAssign : List String := ["v0 = np.zeros((alignment.trace.shape[1], alignment.trace.shape[0]), dtype=np.int64)", "v0[L0] = np.int64(-1)", "v0[L0, alignment.trace[:, L0] != -1] = alignment.sequences[L0].code[alignment.trace[alignment.trace[:, L0] != -1, L0]]", "L0 in range(len(alignment.sequences))", "np.stack(v0)"]
 /-- `if` tests of SubstitutionMatrix.__init__ -/
-def matrixInitTests : List String := ["isinstance(score_matrix, dict)", "isinstance(score_matrix, np.ndarray)", "score_matrix.shape != alph_shape", "not np.issubdtype(score_matrix.dtype, np.integer)", "np.any(self._matrix == np.iinfo(np.int32).max) or np.any(self._matrix == np.iinfo(np.int32).min)", "isinstance(score_matrix, str)"]
+def matrixInitTests : List String := ["isinstance(score_matrix, dict)", "isinstance(score_matrix, np.ndarray)", "score_matrix.shape != (len(alphabet1), len(alphabet2))", "not np.issubdtype(score_matrix.dtype, np.integer)", "np.any(self._a3 == np.iinfo(np.int32).max) or np.any(self._a3 == np.iinfo(np.int32).min)", "isinstance(score_matrix, str)"]
 /-- exception classes of SubstitutionMatrix.__init__ -/
 def matrixInitRaises : List String := ["ValueError", "TypeError", "ValueError", "TypeError"]
 /-- dtype conversion of the score matrix -/
-def matrixAstype : List String := ["self._matrix = score_matrix.astype(np.int32)"]
+def matrixAstype : List String := ["self._a3 = score_matrix.astype(np.int32)"]
 /-- _fill_with_matrix_dict, statement by statement -/
-def matrixFillDict : List String := ["'\\n        Set the score matrix from a dictionary mapping symbol pairs to scores.\\n        '", "self._matrix = np.zeros((len(self._alph1), len(self._alph2)), dtype=np.int32)", "for i in range(len(self._alph1)):
-    for j in range(len(self._alph2)):
-        sym1 = self._alph1.decode(i)
-        sym2 = self._alph2.decode(j)
-        self._matrix[i, j] = int(matrix_dict[sym1, sym2])"]
+def matrixFillDict : List String := ["self._a0 = np.zeros((len(self._a1), len(self._a2)), dtype=np.int32)", "self._a0[L0, L1] = int(p1[self._a1.decode(L0), self._a2.decode(L1)])", "L0 in range(len(self._a1))", "L1 in range(len(self._a2))"]
 /-- dict_from_str, statement by statement -/
-def matrixDictFromStr : List String := ["lines = [line.strip() for line in string.split('\\n')]", "lines = [line for line in lines if len(line) != 0 and line[0] != '#']", "symbols1 = [line.split()[0] for line in lines[1:]]", "symbols2 = [e for e in lines[0].split()]", "scores = np.array([line.split()[1:] for line in lines[1:]]).astype(int)", "matrix_dict = {}", "for i in range(len(symbols1)):
-    for j in range(len(symbols2)):
-        matrix_dict[symbols1[i], symbols2[j]] = scores[i, j]", "return matrix_dict"]
+def matrixDictFromStr : List String := ["v0 = [L0.strip() for L0 in string.split('\\n')]", "v0 = [L1 for L1 in v0 if len(L1) != 0 and L1[0] != '#']", "v1 = {}", "v1[[L3.split()[0] for L3 in v0[1:]][L7], [L5 for L5 in v0[0].split()][L8]] = np.array([L6.split()[1:] for L6 in v0[1:]]).astype(int)[L7, L8]", "L7 in range(len([L2.split()[0] for L2 in v0[1:]]))", "L8 in range(len([L4 for L4 in v0[0].split()]))", "v1"]
 /-- `get_trace_linear`, transliterated from tracetable.pyx: (trace bits, maximum). -/
 def getTraceLinear (match_score gap_left_score gap_top_score : Int) : Nat × Int :=
   (if match_score > gap_left_score then (if match_score > gap_top_score then ((1 : Nat), match_score) else (if match_score = gap_top_score then ((5 : Nat), match_score) else ((4 : Nat), gap_top_score))) else (if match_score = gap_left_score then (if match_score > gap_top_score then ((3 : Nat), match_score) else (if match_score = gap_top_score then ((7 : Nat), match_score) else ((4 : Nat), gap_top_score))) else (if gap_left_score > gap_top_score then ((2 : Nat), gap_left_score) else (if gap_left_score = gap_top_score then ((6 : Nat), gap_left_score) else ((4 : Nat), gap_top_score)))))
